@@ -55,3 +55,11 @@ Theorem cqe_class_tie : forall more k,
   (if Frag.iour_cqe_more more then DriverKeys.ECqeMore k else DriverKeys.ECqeFinal k)
   = (if more then DriverKeys.ECqeMore k else DriverKeys.ECqeFinal k).
 Proof. intros more k. reflexivity. Qed.
+
+(* ---- Proactor::cancel_token (compio-driver/src/lib.rs) ---------------------------------------- *)
+(* the driver is asked to cancel exactly when the operation was neither cancelled before nor has
+   its result already: firing a token twice, or after completion, never reaches the driver *)
+Theorem cancel_token_guard_tie : forall was_cancelled has_result : bool,
+  Frag.cancel_token_skips was_cancelled has_result = (was_cancelled || has_result)%bool
+  /\ (Frag.cancel_token_skips was_cancelled has_result = false <-> was_cancelled = false /\ has_result = false).
+Proof. intros [] []; cbn; repeat split; try discriminate; intros [? ?]; discriminate. Qed.
